@@ -20,6 +20,13 @@ transpose, product A*B, A^T*A, remote_rows(A^T pattern, A), Gershgorin, power me
 backend matrices dump, ghost-vector size), on 1..5 ranks incl. empty ranks and rectangular matrices, integer data.
 Oracles: Gershgorin estimate = serial value on every rank ("gersh_spec", also with 2..5 OpenMP threads per
 rank: "gersht"); power-method estimate bitwise identical on all ranks.
+BLOCK VALUE TYPES (ops "b.*", driver drv_mpi_algebra_block, ids "p<np>.b<k>"): distributed_matrix<builtin<static_matrix<double,2,2>>>
+on small dyadic blocks (exact in binary64; generic pairs of blocks do NOT commute, the fraction is logged): constructor split, spmv,
+residual, product/residual/product on one matrix, inner product of rhs-block vectors, transpose (adjoint of the blocks), product A*B,
+the Galerkin triple product transpose(P) * (A * P) as coarsening::detail::galerkin computes it, remote_rows, scale, sort_rows,
+(A^T)x, (AB)x, copy to builtin<static_matrix<float,2,2>> -- over the same partition families (all contiguous partitions of small
+n incl. empty ranks, rectangular, random larger), compared byte for byte with the SAME extracted Dist.v functions run at
+BlockInst.BlockS QcS 2 and with the serial block kernels (MatOps.v / Kernels.v at BlockS QcS 2).
 """
 import random
 from fractions import Fraction as F
@@ -27,8 +34,9 @@ from vcheck import fmt_q, fmt_vec, fmt_ivec, fmt_crs
 import gen
 from props.common import account, oracle_run
 from props.mpi_common import run_mpi
+from props import blockvals as bv
 
-DRIVERS = ["mpi_algebra"]
+DRIVERS = ["mpi_algebra", "mpi_algebra_block"]
 MODEL = "dist"
 MPIRUN = ["mpirun", "--allow-run-as-root", "--oversubscribe", "--bind-to", "none", "--mca", "mpi_yield_when_idle", "1", "-n"]
 ASSUMPTIONS = [
@@ -44,9 +52,13 @@ ASSUMPTIONS = [
     "power-method spectral radius: only rank-consistency (bitwise identical on all ranks) is checked; in histories: bitwise identical to "
     "the estimate on a never-moved object",
     "histories: the copy constructor's value conversion is not modelled (integer data exact in float); builtin backend only",
+    "block values: static_matrix<double,2,2> on small dyadic blocks (exact in binary64) vs the extracted models at BlockInst.BlockS QcS 2; vector entries "
+    "static_matrix<double,2,1> are modelled as column-0 blocks, base scalars (alpha, beta, scale factor) as c*I; Gershgorin / power method / histories / "
+    "message-order model are not repeated at block values",
 ]
 TRUSTED_BASE = [
-    "mpirun/Open MPI 4.1.4, mpicxx (g++ 12); harness/drv_mpi_algebra.cpp gathers per-rank strings on rank 0; harness/pmpi_trace.hpp",
+    "mpirun/Open MPI 4.1.4, mpicxx (g++ 12); harness/drv_mpi_algebra.cpp, harness/drv_mpi_algebra_block.cpp gather per-rank strings on rank 0; "
+    "harness/pmpi_trace.hpp; ocaml/dist/ops_dist_block.ml (parsing / printing of blocks)",
 ]
 RULE = ("cases derived from VERIF_SEED by tools/props/C11.py: every contiguous partition (empty ranks included) of n <= 5 "
         "(thorough: n <= 7) rows over 1..4 (1..8) ranks x all ops on random dyadic matrices (square and rectangular, duplicate "
@@ -55,6 +67,8 @@ RULE = ("cases derived from VERIF_SEED by tools/props/C11.py: every contiguous p
         "lower bidiagonal: ranks that only send / only receive) with 2-3 consecutive products; MPI call-sequence cases (xtrace, tr:<op>); "
         "operation histories on one object (hist: move_to_backend(keep_src) x consumers, own random stream seed*1000+1111, 1..5 ranks "
         "(thorough 1..8), all partitions of n <= 4 (5) + random n <= 14, integer data, power-of-two diagonals); "
+        "block values (ops b.*, own random stream seed*1000+2222): all partitions of n <= 4 (5) block rows over 1..4 (1..8) ranks + random n <= 12, 2x2 dyadic blocks "
+        "(full / triangular / permutation / rotation / diagonal / scalar / zero kinds), 17 ops incl. the Galerkin triple product; "
         "distinct = distinct (op, payload); non-trivial = implementation output contains a non-zero value and is not an exception")
 
 TIMEOUT = 240
@@ -277,7 +291,153 @@ def cases(tier, seed):
         cid, rest = l.split(" ", 1); np_ = np_of(l)
         kk = cnt.get(np_, 0); cnt[np_] = kk + 1
         out.append("p%d.%d %s" % (np_, kk, rest))
+    return out + block_cases(tier, seed)
+
+
+# ---------------------------------------------------------------- block value types (static_matrix<double,2,2>)
+BLOCK_B = 2
+BVALS = [F(k, d) for k in range(-4, 5) for d in (1, 2)]
+
+def bl_rand(r, b, ints=False):
+    """small dyadic b x b block (entries k/2, |k| <= 8; ints: integers |k| <= 3); the kinds are chosen so that generic pairs do
+    NOT commute (full, triangular, permutation, rotation) with a few central / diagonal / zero ones mixed in"""
+    pool = [F(k) for k in range(-3, 4)] if ints else BVALS
+    nzv = [v for v in pool if v != 0]
+    kind = r.choice(["gen", "gen", "gen", "gen", "sparse", "upper", "lower", "perm", "rot", "scalar", "diag", "zero"])
+    if kind == "gen": return [[r.choice(nzv) for _ in range(b)] for _ in range(b)]
+    if kind == "sparse": return [[r.choice(pool) if r.random() < 0.6 else F(0) for _ in range(b)] for _ in range(b)]
+    if kind == "upper": return [[r.choice(nzv) if j >= i else F(0) for j in range(b)] for i in range(b)]
+    if kind == "lower": return [[r.choice(nzv) if j <= i else F(0) for j in range(b)] for i in range(b)]
+    if kind == "perm":
+        pm = list(range(b)); r.shuffle(pm); v = r.choice(nzv)
+        return [[v if pm[i] == j else F(0) for j in range(b)] for i in range(b)]
+    if kind == "rot":
+        X = bv.bl_zero(b)
+        for i in range(b):
+            for j in range(i + 1, b): v = r.choice(nzv); X[i][j] = v; X[j][i] = -v
+        return X
+    if kind == "scalar": return bv.bl_id(b, r.choice(nzv))
+    if kind == "diag": return [[r.choice(nzv) if i == j else F(0) for j in range(b)] for i in range(b)]
+    return bv.bl_zero(b)
+
+def bl_crs(r, b, n, m, dups=False, ints=False, density=None):
+    pat = gen.rcrs(r, n, m, density=density, dups=dups)
+    return [[(c, bl_rand(r, b, ints)) for c, _ in rw] for rw in pat]
+
+def bl_vec(r, b, n, ints=False):
+    pool = [F(k) for k in range(-3, 4)] if ints else BVALS
+    return [r.choice(pool) for _ in range(n * b)]
+
+BLOCK_NC = dict(pairs=0, noncommuting=0, blocks=0, scalar=0, diagonal=0)     # statistics of the last block_cases() call
+
+def block_cases(tier, seed):
+    """the C11 partition families at block values; own random stream (the scalar cases keep their ids and payloads)"""
+    r = random.Random(seed * 1000 + 2222)
+    quick = tier == "quick"
+    b = BLOCK_B
+    out = []; cnt = {}; mats = []
+    def add(np_, op, *parts):
+        k = cnt.get(np_, 0); cnt[np_] = k + 1
+        out.append("p%d.b%d %s %d %s" % (np_, k, op, b, " ".join(str(p) for p in parts)))
+    def bops_for(np_, n, rp, m, cp, k, kp, heavy=True):
+        A = bl_crs(r, b, n, m, dups=(r.random() < 0.3)); mats.append((A, b))
+        a = bv.fmt_bcrs(n, m, A); RP, CP, KP = fmt_ivec(rp), fmt_ivec(cp), fmt_ivec(kp)
+        x = bl_vec(r, b, m); y = bl_vec(r, b, n); f = bl_vec(r, b, n)
+        X, Y, Fv = bv.fmt_bvec(x, b), bv.fmt_bvec(y, b), bv.fmt_bvec(f, b)
+        al = r.choice([F(1), F(-1), F(2), F(1, 2), F(0)]); be = r.choice([F(0), F(0), F(1), F(-1), F(1, 2)])
+        add(np_, "b.spmv", fmt_q(al), a, RP, CP, X, fmt_q(be), Y)
+        add(np_, "b.residual", Fv, a, RP, CP, X)
+        add(np_, "b.transpose", a, RP, CP)
+        add(np_, "b.transpose_s", a, RP, CP)
+        B = bl_crs(r, b, m, k, dups=(r.random() < 0.2)); mats.append((B, b))
+        bb = bv.fmt_bcrs(m, k, B)
+        add(np_, "b.product", a, RP, CP, bb, KP)
+        add(np_, "b.product_s", a, RP, CP, bb, KP)
+        if heavy:
+            add(np_, "b.split", a, RP, CP)
+            add(np_, "b.spmvres", a, RP, CP, X, Fv, bv.fmt_bvec(bl_vec(r, b, m), b), bv.fmt_bvec(bl_vec(r, b, m), b))
+            add(np_, "b.inner", RP, Y, Fv)
+            add(np_, "b.rrows", a, RP, CP, bb, KP)
+            add(np_, "b.scale", a, RP, CP, fmt_q(r.choice([F(2), F(-1), F(1, 2), F(0), F(3)])))
+            add(np_, "b.sort_rows", a, RP, CP)
+            add(np_, "b.tspmv", a, RP, CP, Y)
+            add(np_, "b.pspmv", a, RP, CP, bb, KP, bv.fmt_bvec(bl_vec(r, b, k), b))
+            Ai = bl_crs(r, b, n, m, dups=(r.random() < 0.2), ints=True)
+            add(np_, "b.copyf", bv.fmt_bcrs(n, m, Ai), RP, CP, bv.fmt_bvec(bl_vec(r, b, m, ints=True), b))
+    def galerkin_case(np_, n, p, k, kp):
+        """A (n x n, rows and columns distributed by p), P (n x k, columns by kp): R = P^T, R (A P) as the distributed coarsenings
+        compute the coarse operator; smoothed-aggregation-like P: dense-ish rows, non-commuting blocks"""
+        A = bl_crs(r, b, n, n, density=r.choice([0.4, 0.6, 0.9])); P = bl_crs(r, b, n, k, density=r.choice([0.4, 0.7, 1.0]))
+        mats.append((A, b)); mats.append((P, b))
+        add(np_, "b.galerkin", bv.fmt_bcrs(n, n, A), fmt_ivec(p), bv.fmt_bcrs(n, k, P), fmt_ivec(kp))
+    ranks = [1, 2, 3, 4] if quick else [1, 2, 3, 4, 5, 6, 8]
+    nmax = 4 if quick else 5
+    for np_ in ranks:
+        add(np_, "b.dtype", np_)
+        for n in range(0, nmax + 1):
+            for p in gen.compositions(n, np_):
+                if np_ >= 5 and r.random() < 0.6: continue
+                kind = r.random()
+                if kind < 0.6:
+                    k = r.choice([n, max(0, n - 1), n + 1])
+                    bops_for(np_, n, p, n, p, k, gen.rcomposition(r, k, np_) if k != n else p)
+                else:
+                    m = r.randint(0, nmax + 1); k = r.randint(0, nmax)
+                    bops_for(np_, n, p, m, gen.rcomposition(r, m, np_), k, gen.rcomposition(r, k, np_))
+                k = r.randint(0, n)
+                galerkin_case(np_, n, p, k, gen.rcomposition(r, k, np_))
+        for it in range(30 if quick else 100):
+            n = r.randint(4, 12); m = r.choice([n, n, r.randint(1, 12)]); k = r.choice([n, r.randint(1, 12)])
+            rp = gen.rcomposition(r, n, np_)
+            cp = rp if (m == n and r.random() < 0.7) else gen.rcomposition(r, m, np_)
+            bops_for(np_, n, rp, m, cp, k, gen.rcomposition(r, k, np_), heavy=(it % 2 == 0))
+            k = r.randint(1, max(1, n // 2))
+            galerkin_case(np_, n, rp, k, gen.rcomposition(r, k, np_, empty_bias=0.1))
+    BLOCK_NC.update({k: v for k, v in bv.noncommuting_fraction(random.Random(seed), mats).items() if k in BLOCK_NC})
     return out
+
+
+BLOCK_THEOREMS = {
+    "b.spmv": "C11_nc_spmv_every_partition_BlockQc", "b.spmvres": "C11_nc_spmv_every_partition_BlockQc, C11_nc_residual_every_partition_BlockQc",
+    "b.residual": "C11_nc_residual_every_partition_BlockQc",
+    "b.transpose": "C11_nc_transpose_every_partition_BlockQc", "b.transpose_s": "C11_nc_transpose_every_partition_BlockQc",
+    "b.tspmv": "C11_nc_transpose_every_partition_BlockQc, C11_nc_spmv_every_partition_BlockQc",
+    "b.product": "C11_nc_product_every_partition_BlockQc", "b.product_s": "C11_nc_product_every_partition_BlockQc",
+    "b.pspmv": "C11_nc_product_every_partition_BlockQc, C11_nc_spmv_every_partition_BlockQc",
+    "b.galerkin": "C11_nc_transpose_every_partition_BlockQc, C11_nc_product_every_partition_BlockQc (failure class: "
+                  "C11_nc_product_swapped_remote_operands_refuted)",
+    "b.scale": "C11_scale_every_partition", "b.sort_rows": "C11_sort_rows_every_rank", "b.split": "C11_renumbering_is_bijection / constructor split",
+}
+
+def run_block(ctx, lines):
+    """block-valued cases: drv_mpi_algebra_block under mpirun vs the extracted Dist.v / MatOps.v / Kernels.v at BlockS QcS b"""
+    fails = []
+    if not lines: return fails
+    groups = {}
+    for l in lines: groups.setdefault(np_of(l), []).append(l)
+    st = ctx["stats"]["by_op"]
+    if BLOCK_NC["pairs"]:
+        st["block_pairs_sampled"] = BLOCK_NC["pairs"]; st["block_pairs_noncommuting"] = BLOCK_NC["noncommuting"]
+        st["blocks_generated"] = BLOCK_NC["blocks"]; st["blocks_scalar_multiple_of_identity"] = BLOCK_NC["scalar"]
+    model = ctx["run_driver"](ctx["model"], lines)
+    for np_ in sorted(groups):
+        ls = groups[np_]
+        shards = {1: 3, 2: 3, 3: 2, 4: 2}.get(np_, 1) if len(ls) > 50 else 1
+        impl = run_mpi(ctx, ctx["cpp"]["mpi_algebra_block"], ls, np_, MPIRUN, shards=shards, timeout=TIMEOUT + 30,
+                       env={"OMP_NUM_THREADS": "1"})
+        account(ctx, ls, impl, nontrivial=lambda op, p, o: bool(o) and not o.startswith(("EXC", "CRASH", "UNSUPPORTED")) and
+                any(ch in "123456789" for ch in o.replace("PMPI ok", "")))
+        crashed = any((v or "").startswith("CRASH") for v in impl.values())
+        for l in ls:
+            cid, op = l.split(" ", 2)[:2]
+            a, m = impl.get(cid), model.get(cid)
+            if a == m: continue
+            ctx["stats"]["mismatches"] += 1
+            if a is None and crashed: continue       # not run: an earlier case of the shard hung/crashed
+            fails.append(dict(kind="counterexample", case=l, impl=a, model=m, op=op, size=len(l), np=np_,
+                              theorem="correspondence drv_mpi_algebra_block (%s, static_matrix<double,%d,%d>, %d ranks) vs Dist.v / serial block "
+                                      "kernels at BlockS QcS %d; %s" % (op, BLOCK_B, BLOCK_B, np_, BLOCK_B, BLOCK_THEOREMS.get(op, "C11 (block values)"))))
+    return fails
 
 
 def spec_line(line):
@@ -291,7 +451,9 @@ def spec_line(line):
 
 def run(ctx, cases_override=None):
     lines = cases_override or cases(ctx["tier"], ctx["seed"])
-    fails = []
+    blines = [l for l in lines if l.split(" ", 2)[1].startswith("b.")]
+    lines = [l for l in lines if not l.split(" ", 2)[1].startswith("b.")]
+    fails = run_block(ctx, blines)
     groups = {}
     for l in lines: groups.setdefault(np_of(l), []).append(l)
     for np_ in sorted(groups):
